@@ -45,7 +45,12 @@ def set_budget(b):
     return old
 
 
-def derive(tree, budget=1000, prep=None):
+def library_budget():
+    import smoothmath._private.base_expression.expression as be
+    return int(be.REDUCTION_STEPS_BOUND)
+
+
+def derive(tree, budget=None, prep=None):
     """single-step the real rewriter on a fresh copy, then NF; and an independent end-to-end _normalize().
     prep() builds the input object (default: fresh from the tree); it is called twice so that the stepped
     object and the end-to-end object have the same history."""
@@ -69,13 +74,16 @@ def derive(tree, budget=1000, prep=None):
     h = WarnCatcher()
     root = logging.getLogger()
     root.addHandler(h)
-    old = set_budget(budget)
+    old = set_budget(budget) if budget is not None else None      # None: the library's OWN budget, whatever it is
     try:
         norm = snapshot(fresh._normalize())
     finally:
-        set_budget(old)
+        if old is not None:
+            set_budget(old)
         root.removeHandler(h)
-    return {"forms": forms, "nf": nf, "norm": norm, "warn": h.hit, "budget": budget, "capped": capped, "nsteps": steps}
+    # "own": the event ran with the library's own budget (C11: inputs of <= 20 nodes must finish inside it without the warning)
+    return {"forms": forms, "nf": nf, "norm": norm, "warn": h.hit, "budget": budget if budget is not None else 1000, "own_budget": budget is None,
+            "library_budget": library_budget(), "capped": capped, "nsteps": steps}
 
 
 def second_round(rnd, tier):
@@ -126,6 +134,34 @@ def replay(pid, path):
     return run(pid, "quick", 0)
 
 
+def special_inputs():
+    """shapes suggested by the second round of seeded defects"""
+    X, Y, C = gen.X, gen.Y, gen.C
+    out = []
+    # a closed unary node over an inner that cannot be evaluated UNTIL a domain-enlarging rewrite has fired inside it
+    redexes = [J.Bin("Power", J.Const(-3), J.Const(2)), J.KUn("NthPower", J.KUn("NthRoot", J.Const(-4), 2), 2), J.BUn("Exponential", J.BUn("Logarithm", J.Const(-1), gen.E_), gen.E_),
+               J.Un("Reciprocal", J.Un("Reciprocal", J.Const(0))), J.Mul(J.Const(0), J.Un("Reciprocal", J.Const(0))), J.Bin("Power", J.Const(0), J.Const(0)),
+               J.Bin("Power", J.BUn("Logarithm", J.Const(-1), gen.E_), J.Const(0))]
+    for r in redexes:
+        for w in (lambda t: J.Un("Cosine", t), lambda t: J.Un("Sine", t), lambda t: J.Un("Negation", t), lambda t: J.BUn("Logarithm", t, gen.q(3)), lambda t: J.KUn("NthRoot", t, 3),
+                  lambda t: J.BUn("Exponential", t, gen.q(2)), lambda t: J.Add(X, J.BUn("Logarithm", t, gen.q(3))), lambda t: J.Mul(Y, J.Un("Cosine", t)), lambda t: J.KUn("NthPower", t, 2)):
+            out.append(w(r))
+    # powers of powers of roots whose indices only share a factor after merging
+    for r_, m, n in ((2, 3, 2), (2, 3, 4), (3, 2, 3), (4, 3, 2), (6, 5, 2), (2, 5, 2), (3, 4, 3)):
+        out.append(J.KUn("NthPower", J.KUn("NthPower", J.KUn("NthRoot", X, r_), m), n))
+        out.append(J.Bin("Power", J.KUn("NthPower", J.KUn("NthRoot", X, r_), m), J.Const(n)))
+    # Power with an NthPower / even-root base, division by constant zero (literal, after folding, inside derivative formulas)
+    for k in (2, 3, 4):
+        out += [J.Bin("Power", J.KUn("NthPower", X, k), Y), J.Bin("Power", J.KUn("NthPower", X, k), J.Const(5, 2)), J.Bin("Power", J.KUn("NthPower", J.Bin("Minus", X, Y), k), J.Const(1, 2))]
+    out += [J.Bin("Divide", X, J.Const(0)), J.Bin("Divide", X, J.Bin("Minus", J.Const(3), J.Const(3))), J.Mul(X, J.Un("Reciprocal", J.Const(0))), J.Mul(X, J.BUn("Logarithm", J.Const(0), gen.E_)),
+            J.Bin("Divide", J.Add(X, Y), J.Const(2)), J.Bin("Divide", X, J.Const(1, 2)), J.Bin("Divide", X, J.Mul(J.Const(0), J.Const(5)))]
+    # tiny folded constants in places where an exact zero would matter
+    tiny = [J.BUn("Exponential", J.Const(-40), gen.E_), J.KUn("NthPower", J.Const(1, 1000), 5), J.Bin("Divide", J.Const(1), J.KUn("NthPower", J.Const(10), 6))]
+    for tn in tiny:
+        out += [J.Bin("Divide", X, tn), J.BUn("Logarithm", J.Add(J.KUn("NthPower", X, 2), tn), gen.E_), J.Mul(tn, X), J.Un("Reciprocal", J.Add(J.KUn("NthPower", X, 2), tn))]
+    return out
+
+
 def inputs_for(pid, tier, seed):
     if REPLAY is not None:
         return [REPLAY[0]]
@@ -141,6 +177,7 @@ def inputs_for(pid, tier, seed):
         for w in (rnd.sample(ws, 2) if quick else rnd.sample(ws, 8)):
             ins.append(w(t))
     ins += gen.chains(12 if quick else 20)
+    ins += special_inputs()
     ins += gen.constant_trees(seed + 5, 150 if quick else 1500)
     ins += gen.random_trees(seed * 13 + 1, 400 if quick else 8000, depth=3)
     ins += gen.random_trees(seed * 13 + 2, 60 if quick else 1500, depth=4)
@@ -174,10 +211,10 @@ def run(pid, tier, seed):
         for k in range(40):
             big.append(gen.random_tree(random.Random(seed * 17 + k), 6))
         big = [t for t in big if 150 <= J.size(t) <= 700][:12]
-    todo = [(t, 1000, None) for t in ins] + [(t, b, None) for t, b in giveup] + [(t, 1000, None) for t in big]
-    todo += [(t, 1000, prep) for t, prep in second_round(rnd, tier)]
+    todo = [(t, None, None) for t in ins] + [(t, b, None) for t, b in giveup] + [(t, None, None) for t in big]
+    todo += [(t, None, prep) for t, prep in second_round(rnd, tier)]
     if REPLAY is not None:
-        todo = [(REPLAY[0], REPLAY[1], None)]
+        todo = [(REPLAY[0], (REPLAY[1] if REPLAY[1] < 1000 else None), None)]
     skipped_overflow = 0
     for i, (t, b, prep) in enumerate(todo, 1):
         try:
